@@ -281,6 +281,17 @@ def swap_index(p):
         got = swap(X, list(p["sys"]), dim)
         _eq(got, R.ref_swap(X, p["sys"], rd, rd, False), "swap(vector)")
         return
+    if p.get("all_omitted"):  # swap(X, row_only=True) with sys and dim omitted: two equal row subsystems, any number of columns
+        ncols = int(p.get("ncols", X.shape[1]))
+        X = _entries((X.shape[0], ncols), p.get("entries", "arange"))
+        got = swap(X, row_only=True) if p["row_only"] else swap(X)
+        d = int(rd[0])
+        W = np.zeros((d * d, d * d), dtype=int)
+        for i in range(d):
+            for j in range(d):
+                W[i * d + j, j * d + i] = 1
+        _eq(got, (W @ X) if p["row_only"] else (W @ X @ W.T), "swap(X%s) with sys and dim omitted" % (", row_only=True" if p["row_only"] else ""))
+        return
     got = swap(X, list(p["sys"]), dim, bool(p["row_only"]))
     _eq(got, R.ref_swap(X, p["sys"], rd, cd, p["row_only"]), "swap")
 
@@ -498,7 +509,13 @@ def realign_index(p):
     else:
         dim = None
     Xin = _layout(X, p)
+    if p.get("sparse"):
+        import scipy.sparse as sps
+
+        Xin = {"csr": sps.csr_matrix, "coo": sps.coo_matrix, "csc": sps.csc_matrix, "csr_array": sps.csr_array}[p["sparse"]](X)
     got = realignment(Xin, dim) if dim is not None else realignment(Xin)
+    if hasattr(got, "toarray"):
+        got = got.toarray()
     _eq(got, R.ref_realignment(X, rd, cd), "realignment")
 
 
